@@ -7,18 +7,19 @@ Import ListNotations.
 
 (** The buffering machine shared by the four classes, for EVERY block geometry (B = sizeof(buf_), the "> P" test,
     length stored at offset L = B - 8), compression function, length encoding and output function: for every
-    content [junk] of the uninitialised buf_ and every list of process() arguments whose total length is below
-    2^64 bits, the run never exhausts its loop fuel and finalize returns the standard's digest
+    content [junk] of the uninitialised buf_ and every list of process() arguments whose total bit length lies in the
+    domain [ok] on which the standard's length field is the 64-bit length_ (= bit length mod 2^64) behind L - P zero
+    bytes, the run never exhausts its loop fuel and finalize returns the standard's digest
     H_spec = out (fold compress (blocks (msg ++ 0x80 ++ 0.. ++ length field)) iv) of the concatenation. *)
 Theorem C14_chunking_independent_generic :
   forall (H : Type) (B P L : nat) (compress : H -> list N -> H) (enc_len : N -> list N) (iv : H)
-         (out : H -> list N) (spec_field : N -> list N),
+         (out : H -> list N) (spec_field : N -> list N) (ok : N -> Prop),
   B = L + 8 -> P <= L -> 0 < P ->
   (forall n, length (enc_len n) = 8) ->
-  (forall n, (n < 2 ^ 64)%N -> spec_field n = repeat 0%N (L - P) ++ enc_len n) ->
+  (forall n, ok n -> spec_field n = repeat 0%N (L - P) ++ enc_len (wrap 64 n)) ->
   forall junk chunks,
   length junk = B ->
-  (8 * N.of_nat (length (concat chunks)) < 2 ^ 64)%N ->
+  ok (8 * N.of_nat (length (concat chunks)))%N ->
   exists st, run H B compress iv junk chunks = Some st /\
              finalize H B P L compress enc_len out st = H_spec H B P compress iv out spec_field (concat chunks).
 Proof. exact chunking_independent_generic. Qed.
@@ -27,11 +28,11 @@ Print Assumptions C14_chunking_independent_generic.
 (** Shape of the standard's padding for the same generic geometry: a whole number of blocks; one extra block when
     |msg| mod B < P (up to 55 resp. 111 bytes in the last block), two when P <= |msg| mod B (56..63 resp. 112..127). *)
 Theorem C14_pad_shape :
-  forall (B P L : nat) (enc_len : N -> list N) (spec_field : N -> list N),
+  forall (B P L : nat) (enc_len : N -> list N) (spec_field : N -> list N) (ok : N -> Prop),
   B = L + 8 -> P <= L -> 0 < P ->
   (forall n, length (enc_len n) = 8) ->
-  (forall n, (n < 2 ^ 64)%N -> spec_field n = repeat 0%N (L - P) ++ enc_len n) ->
-  forall msg, (8 * N.of_nat (length msg) < 2 ^ 64)%N ->
+  (forall n, ok n -> spec_field n = repeat 0%N (L - P) ++ enc_len (wrap 64 n)) ->
+  forall msg, ok (8 * N.of_nat (length msg))%N ->
   length (pad B P spec_field msg) mod B = 0 /\
   (length msg mod B < P -> length (pad B P spec_field msg) = B * (length msg / B) + B) /\
   (P <= length msg mod B -> length (pad B P spec_field msg) = B * (length msg / B) + 2 * B).
@@ -40,10 +41,13 @@ Print Assumptions C14_pad_shape.
 
 (** MD5, SHA-1, SHA-256, SHA-512 as modelled from tlx/digest/*.cpp (tables and geometry regenerated from the
     sources): digest(), digest_hex(), digest_hex_uc() after any sequence of process() calls return the
-    standard's digest of the concatenated message in raw, lower-case and upper-case hexadecimal form. *)
+    standard's digest of the concatenated message in raw, lower-case and upper-case hexadecimal form.
+    The only hypothesis on the message is the algorithm's own domain: none for MD5 (RFC 1321 uses the bit length
+    modulo 2^64, and so does the code), fewer than 2^64 bits for SHA-1 / SHA-256 (the limit of FIPS 180-4) and for
+    SHA-512 (FIPS allows 2^128; SHA512::finalize documents that tlx supports fewer than 2^64 bits). *)
 Theorem C14_digests_equal_standard_for_every_chunking : forall a junk chunks,
   length junk = algo_B a ->
-  (8 * N.of_nat (length (concat chunks)) < 2 ^ 64)%N ->
+  match a with AMD5 => True | _ => (8 * N.of_nat (length (concat chunks)) < 2 ^ 64)%N end ->
   let d := spec a (concat chunks) in
   digest a junk chunks = Some d /\
   digest_hex a junk chunks = Some (hex_spec lc_digit d) /\
@@ -51,9 +55,16 @@ Theorem C14_digests_equal_standard_for_every_chunking : forall a junk chunks,
 Proof. exact api_forms. Qed.
 Print Assumptions C14_digests_equal_standard_for_every_chunking.
 
+(** MD5 alone, with no hypothesis on the message at all *)
+Theorem C14_md5_every_message : forall junk chunks,
+  length junk = Tables_C14_gen.md5_B -> md5_digest_of junk chunks = Some (md5_spec (concat chunks)).
+Proof. exact md5_chunking_independent. Qed.
+Print Assumptions C14_md5_every_message.
+
 (** xxx_hex(data) / xxx_hex_uc(data) *)
 Theorem C14_helpers_equal_standard : forall a junk msg,
-  length junk = algo_B a -> (8 * N.of_nat (length msg) < 2 ^ 64)%N ->
+  length junk = algo_B a ->
+  match a with AMD5 => True | _ => (8 * N.of_nat (length (msg)) < 2 ^ 64)%N end ->
   helper_hex a junk msg = Some (hex_spec lc_digit (spec a msg)) /\
   helper_hex_uc a junk msg = Some (hex_spec uc_digit (spec a msg)).
 Proof. exact helper_forms. Qed.
@@ -63,7 +74,7 @@ Print Assumptions C14_helpers_equal_standard.
 Theorem C14_chunking_irrelevant : forall a junk1 junk2 chunks1 chunks2,
   length junk1 = algo_B a -> length junk2 = algo_B a ->
   concat chunks1 = concat chunks2 ->
-  (8 * N.of_nat (length (concat chunks1)) < 2 ^ 64)%N ->
+  match a with AMD5 => True | _ => (8 * N.of_nat (length (concat chunks1)) < 2 ^ 64)%N end ->
   digest a junk1 chunks1 = digest a junk2 chunks2.
 Proof. exact chunking_irrelevant. Qed.
 Print Assumptions C14_chunking_irrelevant.
